@@ -96,4 +96,84 @@ theorem refMatch_iff (fl : FnFlags) (ts : List Tok) (s : List Nat) :
     refMatch fl ts s = true ↔ Matches fl ts s :=
   ⟨refMatch_sound fl ts s, refMatch_complete fl ts s⟩
 
+/-- what the bracket walk of the code (`classLoop`) returns, expressed through the
+    subject-independent parser of the reference (`parseClass`) -/
+def classResult (fl : FnFlags) (c : Nat) (neg : Bool) (pat0 : List Nat) : BrParse → Option (List Nat)
+  | .closed items rest => if items.any (itemHas fl c) != neg then some rest else none
+  | .literal => if c == cLB then some pat0 else none
+  | .never => none
+
+theorem classLoop_eq_parse (fl : FnFlags) (c : Nat) (neg : Bool) (pat0 : List Nat) :
+    ∀ (f : Nat) (p : List Nat) (atStart fb : Bool) (acc : List CItem),
+      classLoop fl c neg pat0 f p atStart (acc.any (itemHas fl c)) fb =
+        classResult fl c neg pat0 (parseClass fl f p atStart fb acc) := by
+  intro f
+  induction f with
+  | zero => intro p a fb acc; simp [classLoop, parseClass, classResult]
+  | succ f ih =>
+    intro p atStart fb acc
+    have hany : ∀ x, (acc.any (itemHas fl c) || itemHas fl c x) = (acc ++ [x]).any (itemHas fl c) := by
+      intro x; simp [List.any_append]
+    unfold classLoop parseClass
+    cases hn : namedClass p with
+    | some r =>
+      cases r with
+      | none => simp [classResult]
+      | some rc =>
+        obtain ⟨rest, cls⟩ := rc
+        simp only []
+        have := hany (.named cls)
+        simp only [itemHas] at this
+        rw [this]
+        exact ih rest false false _
+    | none =>
+      simp only []
+      cases p with
+      | nil => cases fb <;> simp [classResult]
+      | cons p0 p1 =>
+        simp only []
+        by_cases h1 : p0 = cRB ∧ (!atStart) = true
+        · simp only [h1, and_self, if_true, classResult]
+        · simp only [h1, if_false]
+          by_cases h2 : (p0 = cBSl ∧ (!fl.noescape) = true) ∧ p1 = []
+          · simp only [h2, and_self, if_true, classResult]
+          · simp only [h2, if_false]
+            generalize (if p0 = cBSl ∧ (!fl.noescape) = true then p1 else p0 :: p1) = q
+            by_cases h3 : q.getD 1 0 = cMinus ∧ q.getD 2 0 ≠ cRB ∧ q.getD 2 0 ≠ 0
+            · simp only [h3, ne_eq, not_false_eq_true, and_self, if_true]
+              by_cases h4 : q.getD 2 0 = cBSl ∧ (!fl.noescape) = true
+              · simp only [h4, and_self, if_true]
+                by_cases h5 : q.getD 3 0 = 0
+                · simp only [h5, if_true, classResult]
+                · simp only [h5, if_false]
+                  have := hany (.range (q.getD 0 0) (q.getD 3 0))
+                  simp only [itemHas] at this
+                  rw [this]
+                  exact ih _ false fb _
+              · simp only [h4, if_false]
+                have := hany (.range (q.getD 0 0) (q.getD 2 0))
+                simp only [itemHas] at this
+                rw [this]
+                exact ih _ false fb _
+            · simp only [h3, if_false]
+              have := hany (.ch (q.getD 0 0))
+              simp only [itemHas] at this
+              rw [this]
+              exact ih _ false fb _
+
+
+/-- `match_class` (the code's bracket walk on a concrete subject character) = parse the bracket
+    expression once, independently of the subject, then test membership -/
+theorem matchClass_eq_parse (fl : FnFlags) (pat : List Nat) (c : Nat) :
+    matchClass fl pat c =
+      (let neg := pat.head? == some cBang || pat.head? == some cCaret
+       let body := if neg then pat.drop 1 else pat
+       classResult fl c neg pat (parseClass fl (pat.length + 2) body true true [])) := by
+  unfold matchClass
+  simp only
+  have := classLoop_eq_parse fl c (pat.head? == some cBang || pat.head? == some cCaret) pat
+    (pat.length + 2) (if (pat.head? == some cBang || pat.head? == some cCaret) = true then pat.drop 1 else pat)
+    true true []
+  simpa using this
+
 end UsualProofs.C14
